@@ -103,6 +103,7 @@ func (e *Exec) resetOpaque() {
 	delete(e.opaque, "modeldigests")
 	delete(e.opaque, "hmacmemo")
 	delete(e.opaque, "lastbig")
+	delete(e.opaque, "bigpreset")
 	delete(e.opaque, "pooladv")
 	delete(e.opaque, "randfail")
 	delete(e.opaque, "deferOwner")
@@ -260,6 +261,8 @@ func exploreCase(prog *ssa.Program, hs *HarnessSpec, cases map[string]int64, bas
 				res.Unknown = append(res.Unknown, fmt.Sprintf("%s (path %d): %s", ob.Name, ob.Path, ob.Note))
 			case "violated":
 				res.Violations = append(res.Violations, &Violation{Harness: hs.Name, Cases: cases, Name: ob.Name, Path: ob.Path, Model: ob.Model, Digests: ob.Digests})
+			case "skipped":
+				res.Notes = appendUniq(res.Notes, "further indices of an already violated per-byte assertion were not decided individually")
 			}
 		}
 		switch pr.Outcome {
